@@ -222,6 +222,10 @@ pub fn run(ctx: &Ctx) -> Value {
         tw.emit(cmp_event(mk_date(MAX_DAY), mk_date(n)));
     }
     let _ = Weekday::Mon;
+    tw.emit(ev("consts", json!({}), || { use chrono::{DateTime, NaiveDateTime, Utc};
+        let t = |x: NaiveDateTime| { use chrono::Timelike; json!([dn(x.date()), x.time().num_seconds_from_midnight(), x.time().nanosecond()]) };
+        json!({"min": dn(NaiveDate::MIN), "max": dn(NaiveDate::MAX), "epoch": dn(NaiveDateTime::UNIX_EPOCH.date()), "dtmin": t(NaiveDateTime::MIN), "dtmax": t(NaiveDateTime::MAX),
+               "utcmin": t(DateTime::<Utc>::MIN_UTC.naive_utc()), "utcmax": t(DateTime::<Utc>::MAX_UTC.naive_utc()), "unix_epoch": t(DateTime::UNIX_EPOCH.naive_utc()), "default": dn(NaiveDate::default())}) }));
     tw.finish();
     json!({"swept_dates": swept, "sweep_offenders": bad.len(), "date_events": n_dates, "ctor_lattice_events": n_ctor,
            "random_ctor_events": n_rand, "cmp_events": n_cmp + 18, "events": tw.total,
